@@ -76,5 +76,12 @@ var rareSeeds = []rareSeed{
 	{"x = {if: 1, class: 2, function: 3, new: 4, null: 5, true: 6}.if", "b"}, {"x = a.if.class.new.null.true.function", "b"}, {"x = a?.if?.class", "b"}, {"class C { if(){} class(){} static new(){} #if; }", "b"}, {"x = a.#b", "none"}, {"x = {a: 1, a: 2, get a(){}, a(){}}", "b"},
 	{"var a; var a; function a(){} var a", "b"}, {"{ function f(){} function f(){} }", "s"}, {"function f(){ var a; { function a(){} } }", "b"}, {"function f(a){ var a; function a(){} }", "b"}, {"try {} catch (e) { var e }", "b"}, {"try {} catch (e) { for (var e of []) ; }", "none"},
 	{"x = async function* (){ for await (const a of b) yield* c; await using_; }", "b"}, {"async function f(){ for await (a of b) ; for await (var [c] of d) ; for await (async of e) ; }", "b"}, {"async function f(){ await a ** b }", "none"}, {"async function f(){ (await a) ** b; await (a ** b); -(await a) }", "b"},
+	// `in` below yield / await inside a for initializer; comments in front of a for initializer; modifiers before literal keys
+	{"function* g(){ for (var x = yield (a in b);;) break }", "b"}, {"function* g(){ for (var y = yield* (a in b), z = (yield (c in d));;) break }", "b"}, {"function* g(){ for (yield (a in b);;) break; for (var w = yield yield (a in b);;) break }", "b"},
+	{"async function f(){ for (var x = await (a in b);;) break; for (var y = z ?? (a in b);;) break }", "b"}, {"for (var x = y ? (a in b) : (c in d), z = w => (a in b);;) break", "b"}, {"for (var {x = (a in b)} = {}, [y = (c in d)] = [];;) break", "b"},
+	{"for (/*c*/ (let)[0] = 1;;) break", "s"}, {"/*c*/ (let)[0] = 1", "s"}, {"for (/*c*/ (let)[0] of []) ;", "s"}, {"for (/*c*/ (async) of []) ;", "b"}, {"for (/*c*/ (function(){}) ;;) break", "b"}, {"x = () => /*c*/ ({}).a", "b"}, {"/*c*/ ({}).a = 1", "b"},
+	{"class A { static 1n(){} get 2n(){ return 1 } set 3n(v){} static async 4n(){} static *5n(){} async *6n(){} static get 7n(){ return 1 } }", "b"}, {"x = { get 1n(){ return 1 }, set 1n(v){}, async 2n(){}, *3n(){}, async *4n(){} }", "b"},
+	{"class A { static 1(){} get 0x2(){ return 1 } static 'a'(){} static async 1e3(){} accessor 5 = 1; static accessor 6n = 2 }", "b"},
+	{"'use\\x20strict'; with (a) b", "s"}, {"function f(){ 'use\\x20strict'; with (a) b }", "s"}, {"'use strict\\\n'; with (a) b", "s"}, {"('use strict'); with (a) b", "s"}, {"'use strict', 1; with (a) b", "s"},
 	{"function* g(){ yield; yield yield; yield* yield; x = yield, y = yield a ? b : c; (yield) }", "b"}, {"function* g(){ x = [yield, yield a]; y = {a: yield}; z = `${yield}`; f(yield, yield b) }", "b"}, {"function* g(){ yield\n* 2 }", "none"}, {"function* g(){ function yield2(){} var o = {yield}; }", "none"},
 }
